@@ -64,12 +64,17 @@ def setup() -> None:
     _setup_done = True
 
 
+ENVCLS = [0]  # 0 Environment, 1 NativeEnvironment, 2 SandboxedEnvironment (set per run)
+
+
 def _make_env(P, ae: int, lc: bool, cache_size: int, tape: Tape):
     import jinja2
+    from jinja2.nativetypes import NativeEnvironment
+    from jinja2.sandbox import SandboxedEnvironment
 
-    env = jinja2.Environment(
+    env = (jinja2.Environment, NativeEnvironment, SandboxedEnvironment)[ENVCLS[0]](
         loader=jinja2.DictLoader(P.templates), enable_async=True, autoescape=AE_MODES[ae], cache_size=cache_size,
-        extensions=["jinja2.ext.loopcontrols"] if lc else [], bytecode_cache=CodeMemo(("c37", ae, lc)),
+        extensions=["jinja2.ext.loopcontrols"] if lc else [], bytecode_cache=CodeMemo(("c37", ae, lc, ENVCLS[0])),
     )
 
     async def gf(x=0):
@@ -81,6 +86,7 @@ def _make_env(P, ae: int, lc: bool, cache_size: int, tape: Tape):
 
     env.globals["gf"] = gf
     env.globals["gn"] = 3
+    env.globals["gd"] = {"k1": 1, "k2": [2]}
     return env
 
 
@@ -91,11 +97,12 @@ async def _render(env, entry: str, api: int, data: dict, fault_exc):
     try:
         tmpl = env.get_template(entry, globals={"tg": TG[entry]} if entry in TG else None)
         if api == 0:
-            return ("ok", scrub(await tmpl.render_async(**data)))
+            r_ = await tmpl.render_async(**data)
+            return ("ok", scrub(r_ if isinstance(r_, str) else "native:" + type(r_).__name__ + ":" + repr(r_)))
         chunks = []
         async for c in tmpl.generate_async(**data):
             chunks.append(c)
-        return ("ok", scrub("".join(chunks)))
+        return ("ok", scrub("".join(map(str, chunks))))
     except asyncio.CancelledError:
         raise
     except BaseException as e:  # noqa: BLE001
@@ -183,8 +190,10 @@ def run(tape: Tape) -> Outcome:
     cache_size = CACHE_SIZES[tape.draw(len(CACHE_SIZES))]
     tagged_ok = tape.draw(8) == 7
     size = 2 + tape.draw(4)
+    ENVCLS[0] = (0, 0, 0, 0, 0, 1, 2, 2)[tape.draw(8, "m")]
+    out.count("env_class_" + ("Environment", "NativeEnvironment", "SandboxedEnvironment")[ENVCLS[0]])
     P = Gen(tape, is_async=True, loopcontrols=lc, size=size, allow_module_state=tagged_ok, env_globals=True,
-            template_globals=True).generate()
+            template_globals=True, native=ENVCLS[0] == 1).generate()
     # template-level globals, fixed per template name (documented use); 'main' and 'base' are never
     # included or imported by others, so the documented "cached template keeps its globals" cannot interfere
     tg = {}
